@@ -345,13 +345,11 @@ func (w *tmplWalk) field(v tv, name string) tv {
 			}
 		}
 		s := a.analyze(m, w.locks, []prov{recvProv})
-		if !s.inProgress {
+		if !s.inProgress && w.in.emit {
 			for f := range s.reach {
 				w.in.reach[f] = true
 			}
-			if w.in.emit {
-				w.in.events = append(w.in.events, s.events...)
-			}
+			w.in.events = append(w.in.events, s.events...)
 		}
 		if m.Signature.Results().Len() > 0 {
 			return tv{t: m.Signature.Results().At(0).Type(), p: s.ret}
